@@ -13,6 +13,9 @@ CONSTANTS
   ObsMerge = "if_table_nonempty"
   ModeStore = "canonical"
   UpdateGuard = "before"
+  BoundaryGuard = "none"
+  UpdateArg = "kept"
+  TrackArg = FALSE
   ModeCalls <- MCModeCalls
   InvalidModes <- MCInvalidOne
   ObsParams <- MCObsParams
